@@ -195,6 +195,9 @@ class Ctx:
         outp = os.path.join(self.work, "harness-%s.ndjson" % name)
         cmd = [binary] + args + ["--out", outp, "--prop", self.pid]
         rc, out, dt = sh(cmd, timeout=timeout)
+        if rc == 3 and "ESCAPED-PANIC" in out:
+            self.escaped(name, cmd, out, timeout)
+            return {"cases": 0}
         if rc != 0:
             raise ToolError("harness %s failed rc=%d: %s" % (" ".join(cmd), rc, out[-2000:]))
         stats = None
@@ -219,6 +222,42 @@ class Ctx:
             raise ToolError("harness %s replayed no case (vacuous run)" % name)
         self.absorb(mism, stats.get("mismatches", len(mism)), cmd)
         return stats
+
+    def escaped(self, name, cmd, out, timeout):
+        """A panic of the library escaped the harness's catch: it is data, not a tool failure.
+        Locate the case by bisection of the input file (cases are independent)."""
+        m = re.search(r"ESCAPED-PANIC\t([^\t\n]*)\t([^\n]*)", out)
+        loc, msg = (m.group(1), m.group(2)) if m else ("?", "?")
+        if not loc.startswith("/repo/"):
+            raise ToolError("harness %s panicked in its own code at %s: %s" % (name, loc, msg))
+        case = None
+        if "--in" in cmd:
+            inp = cmd[cmd.index("--in") + 1]
+            lines = [ln for ln in open(inp) if ln.strip()]
+            tmp_in = os.path.join(self.work, "bisect-%s.ndjson" % name)
+            tmp_out = os.path.join(self.work, "bisect-%s.out" % name)
+            c2 = list(cmd)
+            c2[c2.index("--in") + 1] = tmp_in
+            c2[c2.index("--out") + 1] = tmp_out
+
+            def fails(n):
+                with open(tmp_in, "w") as f:
+                    f.writelines(lines[:n])
+                return sh(c2, timeout=timeout)[0] == 3
+            lo, hi = 0, len(lines)          # fails(hi) holds, fails(lo) does not
+            while hi - lo > 1:
+                mid = (lo + hi) // 2
+                if fails(mid):
+                    hi = mid
+                else:
+                    lo = mid
+            case = json.loads(lines[hi - 1])
+        rel = loc[len("/repo/"):]
+        d = {"t": "mismatch", "prop": self.pid, "op": "escaped-panic", "site": "escaped-panic|" + rel,
+             "key": "escaped-panic|%s|%s" % (rel, json.dumps(case, sort_keys=True)[:300]), "cell": "-",
+             "detail": "the library panicked at %s outside every guarded call: %s" % (rel, msg), "case": case}
+        self.cov["harness_runs"].append({"name": name, "escaped_panic": rel})
+        self.absorb([d], 1, cmd)
 
     def absorb(self, mism, total, cmd):
         """Apply known findings; everything else is a violation (one replay file per key)."""
@@ -313,6 +352,11 @@ class Ctx:
 
     # ------------------------------------------------------------- plumbing
     def save_replay(self, obj):
+        # small side inputs of the command (the law tables) travel with the replay file
+        cmd = obj.get("cmd") or []
+        for i, a in enumerate(cmd):
+            if a == "--laws" and i + 1 < len(cmd) and os.path.exists(cmd[i + 1]):
+                obj.setdefault("aux", {})["--laws"] = open(cmd[i + 1]).read()
         blob = json.dumps(obj, sort_keys=True)
         h = hashlib.sha1(blob.encode()).hexdigest()[:12]
         path = os.path.join(REPLAYS, "%s-%s.json" % (self.pid, h))
@@ -373,7 +417,16 @@ def replay_file(path):
                 cmd[i + 1] = inp
             if a == "--out":
                 cmd[i + 1] = os.path.join(tmp, "out.ndjson")
+            if a in obj.get("aux", {}):
+                auxp = os.path.join(tmp, "aux%d.ndjson" % i)
+                with open(auxp, "w") as f:
+                    f.write(obj["aux"][a])
+                cmd[i + 1] = auxp
         rc, out, _ = sh(cmd)
+        if rc == 3 and "ESCAPED-PANIC" in out:
+            print("MISMATCH " + out.strip().splitlines()[-1])
+            print("replay: 1 mismatch(es)")
+            return 1
         if rc != 0:
             print(out[-3000:])
             return 2
